@@ -148,6 +148,8 @@ func c14Setup() {
 			}()),
 			"file:g1": []byte(">g1\nttt\n"), "file:g2": []byte(">g2\nccc\n"),
 			"file:h1": []byte(b.String()), "file:h2": []byte(c14Record("HOST2", "ggggccccaaaatttt", false, 0).String()),
+			// the host of h1 with other annotation over the same residues
+			"file:h3": []byte(c14Record("RECB", "ttgacgtacgatcgatcggcatgcaacc", false, 2).String()),
 			"file:q1": []byte(">q\nacg\n"), "file:q2": []byte(">q\ncat\n"),
 			// secondary inputs whose size is an exact multiple of 4096 bytes and that differ only in their last bytes
 			"SB1": c14BlockFasta(8192, "acgt"), "SB2": c14BlockFasta(8192, "ttga"), "SC1": c14BlockFasta(32768, "acgt"), "SC2": c14BlockFasta(32768, "ttga"),
@@ -306,6 +308,7 @@ func c14Alphabet(thorough bool) []c14Inv {
 	add([]string{"BAD"}, "summary")
 	add([]string{"BAD"}, "query")
 	// the same relative path with different contents (secondary inputs must be keyed by content)
+	out = append(out, c14Inv{Args: []string{"infix", "3", "host.gb"}, Stdin: "A", Files: map[string]string{"host.gb": "h3"}})
 	for _, v := range []string{"1", "2"} {
 		out = append(out,
 			c14Inv{Args: []string{"insert", "3", "guest.fa"}, Stdin: "A", Files: map[string]string{"guest.fa": "g" + v}},
@@ -358,6 +361,19 @@ func c14Alphabet(thorough bool) []c14Inv {
 	add(a, "search", "-k", "genes", "@acg")
 	add(a, "search", "-q", "note=hit2", "@acg")
 	add(a, "search", "@acgt")
+	add(a, "search", "-e", "@acgu")
+	add(a, "search", "-e", "@acgt")
+	add(a, "search", "@acgu")
+	add(a, "select", "gene/gene=g1", "CDS")
+	add(a, "select", "gene/gene=g1|CDS")
+	add(a, "select", "gene/CDS")
+	add(a, "query", "-H", "-I")
+	add(a, "query", "-H", "-K")
+	add(a, "query", "-H", "-L")
+	add(a, "query", "-H", "-I", "-K")
+	add(a, "complement", "-F", "genbank")
+	add([]string{"AFA"}, "complement")
+	add([]string{"AFA"}, "complement", "-F", "genbank")
 	add(a, "select", "-s", "both", "gene")
 	add(a, "select", "gen")
 	add(a, "delete", "2..15")
